@@ -138,6 +138,104 @@ CLAIMS = {
         note="Coq kernel (closed theorems); translator translate/models.py; large fixed-scale classes are not built for real.",
         technique="Rocq/Coq proof (lia over affine dimensions from a symbolic-construction translator) + forward-hook correspondence",
     ),
+    "C03": dict(
+        category="proof",
+        text="Coq theorems over the dispatch table regenerated by partial evaluation of the forward methods: in eval mode every layer "
+             "(dense, conv2d raw/Walsh, conv3d) takes the same path for all four sampling modes and that path contains only the one-hot "
+             "of the argmax of the RAW logits / the threshold form > 0, mixtures, padding and the forward-identity gradient scaling, at "
+             "every tree level; binary32 (Flocq): with one-hot weights and 0/1 inputs the mixture loop returns exactly the table bit "
+             "(16 gates x 4 inputs); the reference circuit is row-wise. Tied by exact comparison of eval outputs with the reference "
+             "circuit (Python mirror + Model/ConvNet in the kernel) under all modes, temperatures, grad factors, repeated calls, "
+             "sub-batches, leading shapes, after training forwards, in-place weight changes and load_state_dict, incl. 1e-30-scale logits.",
+        design_ref="DESIGN.md section 6 C03",
+        note="Coq kernel; Flocq lemmas depend on Reals axioms + classic; translators dispatch.py / ops.py; torch primitives modelled by the reference circuit.",
+        technique="Rocq/Coq proof over a dispatch table regenerated by a partial-evaluation translator + Flocq binary32 computation + exact differential correspondence",
+    ),
+    "C08": dict(
+        category="proof",
+        text="Coq theorems over R: softmax(w/tau) is a probability vector; the source's accumulation loop is the mixture; a raw neuron's "
+             "soft output lies in [0,1] for all inputs in [0,1], logits and temperatures (multilinearity + convexity); logistic in (0,1); "
+             "every tree level of a 2-D/3-D convolution stays in [0,1] (induction over levels of the generic conv model); a one-hot choice "
+             "on Boolean inputs gives the table bit; the soft training rows of the regenerated dispatch table apply softmax(w/temperature) "
+             "/ logistic(form/temperature) at the first level and in the loop. Tied by float64 layer runs vs a numpy mirror (1e-9) and "
+             "by per-sample lemmas |model - observed| <= 1e-9 closed by the interval tactic (Qed).",
+        design_ref="DESIGN.md section 6 C08",
+        note="Coq kernel; Reals axioms + classic; hand-written R model tied by interval lemmas; float32 rounding not proved (1e-6 slack).",
+        technique="Rocq/Coq proof over R (ring/nra/induction) + dispatch translator + interval-tactic correspondence",
+    ),
+    "C09": dict(
+        category="proof",
+        text="Coq theorems: x_hard - x + x = x_hard; argmax(softmax(w/tau)) = argmax(w) for every tau > 0 (strict monotonicity), hence "
+             "the weight vector forwarded by 'hard' is the eval-mode one-hot vector and the neuron outputs the eval value for every "
+             "input; Walsh: [logistic(x/tau) > 1/2] = [x > 0]; a one-hot (Gumbel hard) weight vector applies exactly one gate; the "
+             "'hard' / 'gumbel_hard' rows of the regenerated dispatch table use the straight-through functions with tau = temperature "
+             "at the first level and in the loop; eval rows are mode independent. Tied by train('hard') vs eval on Boolean and real "
+             "inputs (1e-6), fresh-object mode-switch sequences, and gumbel_hard draws (single gate per neuron).",
+        design_ref="DESIGN.md section 6 C09",
+        note="Coq kernel; Reals axioms + classic; binary32 rounding of (1-p)+p allowed 1e-6; gumbel_softmax modelled from its documentation.",
+        technique="Rocq/Coq proof over R (monotonicity of exp, case analysis) + dispatch translator + differential correspondence",
+    ),
+    "C10": dict(
+        category="proof",
+        text="Coq theorems (Coquelicot is_derive): the mixture is affine in each input so its derivative is its slope; softmax Jacobian "
+             "p_i(delta_ij - p_j)/tau and logistic derivative s(1-s)/tau; a dual-number model of autograd (detach and comparisons carry a "
+             "zero derivative) is sound on the smooth operations, and under it both straight-through forms forward the hard value with the "
+             "soft gradient (non-zero for 0<p<1); GradFactor leaves values unchanged and multiplies the gradient by f; every layer applies "
+             "GradFactor to its input first (regenerated dispatch table). Tied by torch.autograd.grad in float64 vs the analytic formulas "
+             "(1e-9) for dense raw/Walsh soft/hard, gumbel modes, and exact gradient ratios f on dense, conv2d (padding 0..2), conv3d.",
+        design_ref="DESIGN.md section 6 C10",
+        note="Coq kernel; Reals axioms + classic; that torch's reverse-mode engine implements the dual-number semantics is trusted and exercised.",
+        technique="Rocq/Coq proof (Coquelicot auto_derive, dual-number autodiff model) + dispatch translator + autograd differential correspondence",
+    ),
+    "C15": dict(
+        category="proof",
+        text="Coq theorems: a layer rebuilt under ANY RNG state and loaded from a saved state that contains the wiring is the saved layer "
+             "(same eval function); without the wiring the statement is false (witness); the current source persists the wiring for "
+             "every class and connection scheme (introspection translator); in the process model a library saved to p and loaded from p "
+             "computes the saved model from any reachable state. Partial: serialisation and the loader are outside the model. Tied by "
+             "two-process histories (seed s1 save, seed s2 + advanced RNG rebuild/load) for five model kinds and four word sizes on a "
+             "100-row probe batch.",
+        design_ref="DESIGN.md section 6 C15",
+        note="Coq kernel (closed theorems); translators persist.py (introspection) and libio.py; torch.save/load and dlopen trusted.",
+        technique="Rocq/Coq proof on a state model + introspection translator + cross-process differential correspondence",
+    ),
+    "C16": dict(
+        category="proof",
+        text="Coq refinement theorem: for EVERY finite history over compile(save to p)/load(p)/call, the process model with the save and "
+             "load disciplines read from the source (rename into place, private copy on load) produces exactly the outputs of the "
+             "specification 'a call returns the model its handle was made from; load(p) yields the model most recently saved to p', and "
+             "never crashes (induction with a refinement relation); the old disciplines are refuted by concrete histories. Partial: the "
+             "loader/mmap semantics are modelled, thread interleavings exercised not proved. Tied by executing histories (fixed dangerous "
+             "shapes + random, length <= 5/7) in fresh interpreters and comparing every step with the model in the kernel; 2..16 threads "
+             "on same/different handles vs sequential results; static-storage scan of the emitted text.",
+        design_ref="DESIGN.md section 6 C16",
+        note="Coq kernel (closed theorems); translator libio.py; glibc loader, file system and thread scheduling trusted / exercised.",
+        technique="Rocq/Coq proof (refinement of a state machine to an abstract map spec, induction over histories) + subprocess history correspondence",
+    ),
+    "C17": dict(
+        category="proof",
+        text="Coq theorems over R on the model sigmoid((x + ln(u+1e-20) - ln(1-u+1e-20))/tau): sample in (0,1), hard sample in {0,1}; "
+             "hard = 1 iff x + noise > tau*logit(t), which at the default threshold does not mention tau; without the guard the event "
+             "is u in (1 - logistic(x), 1), an interval of length logistic(x); reproducibility; tau <= 0 rejected (guards present); "
+             "layers: gumbel_hard = one gate, gumbel_soft = valid mixture. Partial: uniformity of torch.rand_like trusted. Tied with the "
+             "uniform draw supplied by the harness: float64 mirror, interval lemmas, exact hard events, temperature independence, seeds, "
+             "fixed-seed frequencies (6 sigma), layers in both Gumbel modes.",
+        design_ref="DESIGN.md section 6 C17",
+        note="Coq kernel; Reals axioms + classic; rand_like uniformity trusted; gumbel_softmax from documentation.",
+        technique="Rocq/Coq proof over R (monotonicity of logistic/ln/exp) + interval-tactic and supplied-draw correspondence",
+    ),
+    "C18": dict(
+        category="proof",
+        text="Coq theorems over R on a model that equals the source statement by statement (translator): thresholds = cumsum(softplus) "
+             "strictly increasing for any raw vector (torch's softplus threshold included); a fresh layer reports its initial thresholds; "
+             "hard and soft codes are non-increasing along the threshold axis, soft in (0,1), rounds to the hard code, equals the tanh "
+             "form; freezing (round-half-even via Flocq ZnearestE) gives rounded, ordered thresholds within 1/2, the exact hard code, "
+             "and is idempotent. Binary32 resolution (recorded finding F13b) is outside the R model. Tied by float64 mirror, interval "
+             "lemmas, exact hard codes, rank-3/rank-4 inputs, freeze 1..3 times, small/large/closely spaced initial thresholds.",
+        design_ref="DESIGN.md section 6 C18",
+        note="Coq kernel; Reals axioms + classic (also via Flocq); translator thermo.py; torch softplus/round modelled from documentation.",
+        technique="Rocq/Coq proof over R (Flocq rounding lemmas, ln/exp) + statement-equality translator + interval-tactic correspondence",
+    ),
 }
 
 NOT_YET = "not yet built in this revision of /verif (work in progress; see DESIGN.md section 9 build order)"
